@@ -67,6 +67,7 @@ void vh_sample_text(const char* fmt, ...) __attribute__((format(printf, 1, 2)));
 void vh_violation(const char* key, const char* fmt, ...)
     __attribute__((format(printf, 2, 3)));
 /* Machinery failure: exit code 2 (never a verdict about libcbor). */
+uint64_t vh_violation_count(void);
 void vh_die(const char* fmt, ...) __attribute__((format(printf, 1, 2), noreturn));
 void vh_set_rule(const char* rule);
 void vh_set_exhaustive(bool b);
@@ -143,7 +144,8 @@ bool ta_selftest(void);
 
 /* "tagged": hidden 32-byte header in front of every block */
 void tg_install(void);
-extern uint64_t TG_bad_magic, TG_allocs, TG_frees, TG_live;
+extern uint64_t TG_bad_magic, TG_allocs, TG_frees, TG_live, TG_refused;
+extern bool TG_refuse_all;
 
 /* "arena": mmap-backed, no libc behind it; two zones, zone 0 can be frozen */
 void ar_install(void);
@@ -153,7 +155,8 @@ void ar_freeze(bool ro);         /* mprotect zone 0 */
 bool ar_contains(const void* p); /* either zone */
 int ar_zone_of(const void* p);
 bool ar_block_of(const void* addr, uintptr_t* base, size_t* size);
-extern uint64_t AR_foreign_free, AR_allocs, AR_frees, AR_live;
+extern uint64_t AR_foreign_free, AR_allocs, AR_frees, AR_live, AR_refused;
+extern bool AR_refuse_all;
 extern volatile int vh_in_lib; /* set by drivers around libcbor calls (bypass detector) */
 extern uint64_t VH_bypass_calls;
 
